@@ -5,6 +5,8 @@ EXPLANATION = (
     "lock_exclusive, or creation of a lock file with create_new). Without one, nothing can refuse or delay a second writer. "
     "Does not decide the lock's lifetime or cross-platform semantics. C10.2 decides the in-process half: maintenance writers (compaction, close-time "
     "checkpoint) take every engine-state lock while holding the writer mutex, so their read-modify-write cannot interleave with a write transaction."
+    " C10.3: the bulk loader — a second way to a writing handle — only ever creates a database: every success return of BulkLoader::new lies on the "
+    "`does not exist` branch of a Path::exists test of its path parameter, and nothing in the bulkload module removes or renames over a file."
 )
 
 OPENERS = [
@@ -43,3 +45,39 @@ def run(ctx):
     # its read-modify-write with an open write transaction
     from .c09 import writer_rmw_rule
     writer_rmw_rule(ctx, "C10.2")
+    bulk_rule(ctx)
+
+
+BULK_NEW = "nervusdb_storage::bulkload::BulkLoader::new"
+REMOVERS = ("std::fs::remove_file", "std::fs::rename", "std::fs::remove_dir_all", "std::fs::File::set_len")
+
+
+def bulk_rule(ctx, rid="C10.3"):
+    from .. import paths
+    from ..facts import op_local
+    from .c26 import bool_branches, bslice
+    F = ctx.facts
+    ctx.rule(rid, "the bulk loader refuses every existing database file (it is never a way to write under a live handle)")
+    b = ctx.body(BULK_NEW)
+    ex = [c for c in b.calls() if c.name.endswith("::Path::exists") and 1 in bslice(b, op_local(c.args[0]), depth=10)[0]]
+    ctx.floor(rid, "existence tests of the path parameter in BulkLoader::new", len(ex), 1)
+    for c in ex:
+        br = bool_branches(b, c.target) if c.target is not None else None
+        ctx.instance(rid, "BulkLoader::new: Path::exists at %s" % c.loc())
+        if br is None:
+            ctx.finding(rid, rid + ":new:exists-not-branched", "the result of the existence test is not branched on", c.loc())
+            continue
+        _, tb, fb = br
+        oks = [] if tb in paths.fail_blocks(b) else paths.success_returns_reachable(b, [tb])
+        ctx.oblige(not oks, rid, rid + ":new:accepts-existing", "BulkLoader::new can return Ok on the branch where the database file already exists: "
+                   "the loader then replaces the page file of a database another handle may have open (its WAL can live elsewhere)", c.loc())
+    n = 0
+    for i, fb_ in sorted(F.bodies.items()):
+        if not i.startswith("nervusdb_storage::bulkload::"):
+            continue
+        for c in fb_.calls():
+            if c.name in REMOVERS:
+                n += 1
+                ctx.finding(rid, "%s:%s:%s" % (rid, (fb_.root or i).split("::")[-1], c.name.split("::")[-1]),
+                            "the bulk loader removes / renames over an existing file (%s): it must only create files that do not exist yet" % c.name, c.loc())
+    ctx.instance(rid, "file removals / renames in the bulkload module: %d" % n)
